@@ -15,6 +15,7 @@
 package zap
 
 import (
+	"bytes"
 	"fmt"
 
 	"github.com/RoaringBitmap/roaring/v2"
@@ -126,6 +127,13 @@ func (d *Dictionary) AutomatonIterator(a segment.Automaton,
 
 		itr, err := d.fst.Search(a, startKeyInclusive, endKeyExclusive)
 		if err == nil {
+			// vellum does not compare the key it starts on with the exclusive
+			// end key; the keys ascend, so if that first key is already past
+			// the end there is nothing in the range
+			if k, _ := itr.Current(); endKeyExclusive != nil &&
+				bytes.Compare(k, endKeyExclusive) >= 0 {
+				return rv
+			}
 			rv.itr = itr
 		} else if err != vellum.ErrIteratorDone {
 			rv.err = err
